@@ -803,6 +803,20 @@ def r29_all_and_ref_for(toks, log):
                 toks[i:bc] = head + nb
                 log.append(("R26", ln, "for %s in &mut %s -> index loop" % (V, X)))
                 i += len(head); continue
+        # for & V in & PLACE {   (PLACE: a place expression such as `cols` or `s.col_to_rows[c]`)  ->  index loop with a named iterator
+        if t.kind == "id" and t.text == "for" and i + 6 < len(toks) and P(toks[i + 1], "&") and toks[i + 2].kind == "id" and toks[i + 3].text == "in" and P(toks[i + 4], "&") and toks[i + 5].text != "mut":
+            j = i + 5
+            while j < len(toks) and not P(toks[j], "{") and toks[j].text not in ("(", ";"):
+                if toks[j].text == "[": j = match_close(toks, j)
+                j += 1
+            if j < len(toks) and P(toks[j], "{") and j > i + 5:
+                V = toks[i + 2].text
+                X = " ".join(u.text for u in toks[i + 5:j])
+                ln = t.line
+                new = toks_of("for vx_r_%s in vx_it_%s : 0 .. %s . len ( ) { let %s = %s [ vx_r_%s ] ;" % (V, V, X, V, X, V), ln)
+                toks[i:j + 1] = new
+                log.append(("R26", ln, "for &%s in &%s -> index loop" % (V, X)))
+                i += len(new); continue
         if t.kind == "id" and t.text == "for" and i + 4 < len(toks) and P(toks[i + 1], "&") and toks[i + 2].kind == "id" and toks[i + 3].text == "in" and toks[i + 4].kind == "id" and P(toks[i + 5], "{"):
             V, X = toks[i + 2].text, toks[i + 4].text
             ln = t.line
